@@ -18,19 +18,23 @@ const TREE_CYCLE: ExpandOpts = ExpandOpts { caps: [0, 8, 4], rate: 48, max_nodes
 const TREE_LIGHT: ExpandOpts = ExpandOpts { caps: [0, 6, 3], rate: 24, max_nodes: 2500 };
 
 const fn wi(profile: Profile, expand: Option<ExpandOpts>) -> WalkOpts {
-    WalkOpts { profile, expand, follow_norep: false, inject: crate::drive::Inject::Auto }
+    WalkOpts { profile, expand, follow_norep: false, inject: crate::drive::Inject::Auto, interfere: false }
+}
+
+const fn wx(profile: Profile) -> WalkOpts {
+    WalkOpts { profile, expand: None, follow_norep: false, inject: crate::drive::Inject::No, interfere: true }
 }
 
 const fn wr(profile: Profile, expand: Option<ExpandOpts>) -> WalkOpts {
-    WalkOpts { profile, expand, follow_norep: false, inject: crate::drive::Inject::Rebuild }
+    WalkOpts { profile, expand, follow_norep: false, inject: crate::drive::Inject::Rebuild, interfere: false }
 }
 
 const fn wn(profile: Profile) -> WalkOpts {
-    WalkOpts { profile, expand: None, follow_norep: true, inject: crate::drive::Inject::No }
+    WalkOpts { profile, expand: None, follow_norep: true, inject: crate::drive::Inject::No, interfere: false }
 }
 
 const fn w(profile: Profile, expand: Option<ExpandOpts>) -> WalkOpts {
-    WalkOpts { profile, expand, follow_norep: false, inject: crate::drive::Inject::No }
+    WalkOpts { profile, expand, follow_norep: false, inject: crate::drive::Inject::No, interfere: false }
 }
 
 macro_rules! leg {
@@ -91,6 +95,8 @@ fn legs_base(id: &str) -> Vec<Leg> {
             leg!("false_protection_motif_tree", MOTIF, w(Profile::Fight, Some(TREE)), 150, 1200, 60, mk),
             leg!("rebuilt_states_tree", POS_ONLY, wr(Profile::Fight, Some(TREE_LIGHT)), 40, 320, 60, mk),
             leg!("rebuilt_states_motif_tree", MOTIF, wr(Profile::Fight, Some(TREE)), 100, 800, 60, mk),
+            leg!("interference_probe_fight", MIX, wx(Profile::Fight), 400, 3200, 300, mk),
+            leg!("interference_probe_motif", MOTIF, wx(Profile::Fight), 300, 2400, 60, mk),
         ],
         "C02" => vec![
             leg!("games_fight", MIX, w(Profile::Fight, Some(TREE_LIGHT)), 480, 14400, 600, mk),
@@ -107,6 +113,8 @@ fn legs_base(id: &str) -> Vec<Leg> {
             leg!("false_protection_motif_tree", MOTIF, w(Profile::Fight, Some(TREE)), 300, 2400, 60, mk),
             leg!("injected_history_near_immobile", FROZEN, wi(Profile::Cycle, None), 1000, 8000, 600, mk),
             leg!("injected_history_normal", MIX, wi(Profile::Normal, None), 400, 3200, 600, mk),
+            leg!("interference_probe_fight", MIX, wx(Profile::Fight), 400, 3200, 300, mk),
+            leg!("interference_probe_motif", MOTIF, wx(Profile::Fight), 300, 2400, 60, mk),
         ],
         "C05" | "C06" | "C07" => vec![
             leg!("small_cycle", SMALL, w(Profile::Cycle, None), 5000, 150000, 1500, mk),
@@ -118,6 +126,7 @@ fn legs_base(id: &str) -> Vec<Leg> {
             leg!("injected_history_normal", MIX, wi(Profile::Normal, None), 600, 18000, 600, mk),
             leg!("injected_history_fight", MIX, wi(Profile::Fight, None), 400, 12000, 600, mk),
             leg!("injected_history_near_immobile", FROZEN, wi(Profile::Cycle, None), 1500, 45000, 600, mk),
+            leg!("interference_probe_near_immobile", FROZEN, wx(Profile::Cycle), 600, 4800, 300, mk),
         ],
         "C08" => vec![
             leg!("games_normal", MIX_LONGSETUP, w(Profile::Normal, None), 3000, 90000, 1500, mk),
@@ -142,11 +151,15 @@ fn legs_base(id: &str) -> Vec<Leg> {
             leg!("false_protection_motif_tree", MOTIF, w(Profile::Fight, Some(TREE)), 300, 2400, 60, mk),
             leg!("rebuilt_states_motif_tree", MOTIF, wr(Profile::Fight, Some(TREE)), 100, 800, 60, mk),
             leg!("rebuilt_states_games", MIX, wr(Profile::Fight, None), 300, 2400, 400, mk),
+            leg!("interference_probe_fight", MIX, wx(Profile::Fight), 400, 3200, 300, mk),
+            leg!("interference_probe_motif", MOTIF, wx(Profile::Fight), 300, 2400, 60, mk),
         ],
         "C13" => vec![
             leg!("games_fight", MIX, w(Profile::Fight, Some(TREE_LIGHT)), 120, 3600, 500, mk),
             leg!("games_normal", MIX, w(Profile::Normal, None), 300, 9000, 1000, mk),
             leg!("false_protection_motif_tree", MOTIF, w(Profile::Fight, Some(TREE)), 200, 1600, 60, mk),
+            leg!("interference_probe_fight", MIX, wx(Profile::Fight), 400, 3200, 300, mk),
+            leg!("interference_probe_motif", MOTIF, wx(Profile::Fight), 300, 2400, 60, mk),
         ],
         "C14" => vec![
             leg!("tree_from_positions", POS_ONLY, w(Profile::Fight, Some(TREE)), 75, 2250, 60, mk),
